@@ -302,7 +302,22 @@ Inductive cmd :=
 | Autopilot (cas : bool) (payload cidx : N)                  (* AutopilotSetConfigRequest *)
 | TokenSet (cas : bool) (qs : list tokreq)                   (* ACLTokenBatchSetRequest *)
 | TokenDelete (accs : list string)
-| FeatureGate (policy status : option N) (epi esi : N).
+| FeatureGate (policy status : option N) (epi esi : N)
+(* the RPC endpoints ConfigEntry.Apply / ConfigEntry.Delete (agent/consul/config_endpoint.go) as far as
+   they decide the reply: shouldSkipOperation, then the FSM command.  [status] is the Status field
+   of the submitted entry (compared by reflect.DeepEqual, ignored by the plain upsert). *)
+| RpcCfgApply (cas : bool) (k : ckey) (content status cidx : N)
+| RpcCfgDelete (cas : bool) (k : ckey) (cidx : N).
+
+(* shouldSkipUpsertOperation: the stored entry equals the submitted one once the submitted RaftIndex
+   is overwritten with the stored one -- the supplied ModifyIndex is never looked at *)
+Definition rpc_skip_upsert (k : ckey) (content status : N) (s : st) : bool :=
+  match cfg s !! k with
+  | Some x => bool_decide (ce_content x = content) && bool_decide (ce_status x = if controlled k then status else 0)
+  | None => false
+  end.
+(* shouldSkipOperation for Delete and DeleteCAS: "return (currentEntry == nil), nil" *)
+Definition rpc_skip_delete (k : ckey) (s : st) : bool := negb (bool_decide (is_Some (cfg s !! k))).
 
 (* a store method of the shape "(bool, error)": commit what was written and report it *)
 Definition bool_result (a : attempt) (s : st) : st * res :=
@@ -349,6 +364,24 @@ Section Apply.
     | TokenSet cas qs => nil_result (token_batch_set idx cas qs s) s
     | TokenDelete accs => (token_batch_delete idx accs s, RNil)
     | FeatureGate policy status epi esi => bool_result (feature_gate_update idx policy status epi esi s) s
+    | RpcCfgApply cas k content status cidx =>
+      (* "if skip { *reply = true; return nil }" -- no Raft command is issued *)
+      if rpc_skip_upsert k content status s then (s, RBool true)
+      else if cas then bool_result (ensure_cfg_cas graph_ok idx cidx false k content 0 s) s
+      else match ensure_cfg graph_ok idx false k content 0 s with
+           | Applied s' => (s', RBool true)
+           | Mismatch => (s, RBool true)
+           | Failed e => (s, RErr e)
+           end
+    | RpcCfgDelete cas k cidx =>
+      (* "if skip { reply.Deleted = true; return nil }" *)
+      if rpc_skip_delete k s then (s, RBool true)
+      else if cas then bool_result (delete_cfg_cas graph_ok idx cidx k s) s
+      else match delete_cfg graph_ok idx k s with
+           | Applied s' => (s', RBool true)
+           | Mismatch => (s, RBool true)
+           | Failed e => (s, RErr e)
+           end
     end.
 
   Fixpoint run (log : list (N * cmd)) (s : st) : list (st * res) :=
